@@ -317,6 +317,12 @@ impl Write for SimSink {
         s.log.largest_offer = s.log.largest_offer.max(buf.len());
         // continuous prefix invariant: what the sink has plus what it is offered now must be a
         // prefix of what the operations issued so far should produce
+        // (the comparison covers the first CHECK_AHEAD bytes of the offer here and every byte that is
+        // actually accepted below: a one-byte-per-call sink under a 64 KiB flush would otherwise
+        // cost a quadratic number of byte comparisons, seconds per flush)
+        const CHECK_AHEAD: usize = 512;
+        let buf_all = buf;
+        let buf = &buf_all[..buf_all.len().min(CHECK_AHEAD)];
         if s.breach.is_none() {
             let at = s.received.len();
             let ok = at + buf.len() <= s.expected.len() && &s.expected[at..at + buf.len()] == buf;
@@ -331,6 +337,39 @@ impl Write for SimSink {
                         "sink had {} bytes and was offered {} more, but byte {} of the stream should be {:?} and the offer has {:?} (offer[{}..{}]={:?}, model[{}..]={:?}, model stream is {} bytes so far)",
                         at,
                         buf.len(),
+                        at + first_bad,
+                        s.expected.get(at + first_bad).map(|b| *b as char),
+                        buf.get(first_bad).map(|b| *b as char),
+                        lo,
+                        hi,
+                        escape_bytes(&buf[lo..hi]),
+                        at + lo,
+                        escape_bytes(&s.expected[(at + lo).min(upto)..(at + hi).min(s.expected.len())]),
+                        s.expected.len()
+                    ),
+                ));
+            }
+        }
+        let buf = buf_all;
+        // the part of an accepted piece beyond CHECK_AHEAD
+        fn verify_rest(s: &mut Shared, buf: &[u8], n: usize) {
+            const CHECK_AHEAD: usize = 512;
+            if n <= CHECK_AHEAD || s.breach.is_some() {
+                return;
+            }
+            let at = s.received.len();
+            let ok = at + n <= s.expected.len() && s.expected[at + CHECK_AHEAD..at + n] == buf[CHECK_AHEAD..n];
+            if !ok {
+                let first_bad = (CHECK_AHEAD..n).find(|i| s.expected.get(at + i) != Some(&buf[*i])).unwrap_or(CHECK_AHEAD);
+                let lo = first_bad.saturating_sub(8);
+                let hi = (first_bad + 24).min(n);
+                let upto = (at + n).min(s.expected.len());
+                s.breach = Some((
+                    s.current_op,
+                    format!(
+                        "sink had {} bytes and accepted {} more, but byte {} of the stream should be {:?} and the piece has {:?} (piece[{}..{}]={:?}, model[{}..]={:?}, model stream is {} bytes so far)",
+                        at,
+                        n,
                         at + first_bad,
                         s.expected.get(at + first_bad).map(|b| *b as char),
                         buf.get(first_bad).map(|b| *b as char),
@@ -404,6 +443,7 @@ impl Write for SimSink {
                 if s.log.accepted_chunks.len() < 2048 {
                     s.log.accepted_chunks.push(n);
                 }
+                verify_rest(s, buf, n);
                 s.received.extend_from_slice(&buf[..n]);
                 Ok(n)
             }
